@@ -3,10 +3,11 @@ import string
 import logging
 from bisect import bisect
 from ast import Name as AstName, Attribute, Call, FunctionDef, ClassDef, Lambda
+from ast import List as AstList, Tuple as AstTuple
 
 from .util import (Location, np, insert_loc, cached_property,
                    get_indexes_for_target, context_property)
-from .compat import PY2, itervalues, builtins, iteritems, iterkeys
+from .compat import PY2, itervalues, builtins, iteritems, iterkeys, string_types
 from .name import (ArgumentName, MultiName, UndefinedName, ImportedName,
                    RuntimeName, AdditionalNameWrapper, AssignedName,
                    MultiValue, AssignedAttribute, Object, Resolvable,
@@ -110,6 +111,9 @@ class Flow(object):
             pscope = self.scope.parent
             if pscope:
                 snames = pscope.names
+                if self.scope is self.scope.top:
+                    # module level: names bound under `global` in functions
+                    snames = MergedDict(self.scope._global_names, snames)
                 rerouted = self.scope.globals and pscope is not self.scope.top
                 if isinstance(self.scope, ClassScope):
                     if not rerouted:
@@ -279,11 +283,31 @@ class SourceScope(Scope):
             except ImportError:
                 continue
 
-            for name in iterkeys(module._attrs):
-                if not name.startswith('_'):
-                    flow.add_name(ImportedName(name, loc, declared_at, mname, name, True))
+            for name in star_names(module._attrs):
+                flow.add_name(ImportedName(name, loc, declared_at, mname, name, True))
 
         self._star_imports[:] = []
+
+
+def star_names(attrs):
+    # type: (t.Mapping[str, t.Any]) -> list[str]
+    """Names `from module import *` binds: what a live module lists in
+    __all__; the public names otherwise, plus what a source module's __all__
+    literal lists (the list may be extended at run time)"""
+    declared = attrs.get('__all__')
+    value = getattr(declared, 'value', None)  # a live module
+    if type(value) in (list, tuple) and all(isinstance(n, string_types) for n in value):
+        return [n for n in value if n in attrs]
+
+    names = [n for n in iterkeys(attrs) if not n.startswith('_')]
+    node = getattr(declared, 'value_node', None)  # a source module
+    if type(node) in (AstList, AstTuple):
+        for e in node.elts:
+            n = e.value if hasattr(e, 'value') else getattr(e, 's', None)
+            if isinstance(n, string_types) and n.startswith('_') and n in attrs:
+                names.append(n)
+
+    return names
 
 
 def get_first_body_node_loc(body):
